@@ -189,6 +189,23 @@ pub fn rich(rng: &mut Rng, o: &RichOpts, layout: &Layout) -> DocSpec {
             zlib_stored(&pixels2),
         );
         xobj_entries.push(("Im2".into(), Val::r(im2)));
+        // Flate + PNG predictor without /Columns (default 1): rows of one tag byte + one data byte;
+        // also the soft mask of the first image, so it is reachable through two typed views
+        let rows: Vec<u8> = (0..4u8).flat_map(|i| [0u8, 10 + i]).collect();
+        let im4 = b.add_stream(
+            vec![
+                ("Type".into(), Val::name("XObject")),
+                ("Subtype".into(), Val::name("Image")),
+                ("Width".into(), Val::Int(4)),
+                ("Height".into(), Val::Int(1)),
+                ("ColorSpace".into(), Val::name("DeviceGray")),
+                ("BitsPerComponent".into(), Val::Int(8)),
+                ("Filter".into(), Val::name("FlateDecode")),
+                ("DecodeParms".into(), Val::dict(vec![("Predictor", Val::Int(12))])),
+            ],
+            zlib_stored(&rows),
+        );
+        xobj_entries.push(("Im4".into(), Val::r(im4)));
         // unfiltered image
         let im3 = b.add_stream(
             vec![
